@@ -276,6 +276,10 @@ func runSeq(sc *SeqCase, scribble bool) (*seqRun, error) {
 		}
 		run.recs = append(run.recs, callRec{Errno: errno, Kind: out.Kind, Digest: digest(call.Fn, args, errno, after)})
 	}
+	if p := w.closeModule(); p != "" {
+		run.msg = fmt.Sprintf("closing the module after the sequence panicked: %s", p)
+		return run, nil
+	}
 	run.shape = shapeSig(w.dir)
 	run.outer = outerSig()
 	return run, nil
